@@ -49,14 +49,14 @@ Definition outer_ok (s : xstate) (sp : Z) : Prop :=
 
 Lemma above_eq_outer s s' sp : above_eq s s' sp -> outer_ok s sp -> outer_ok s' sp.
 Proof.
-  intros (_ & _ & K) (A & B). split; [exact A|]. change SPILL_SPACE with 2048 in *.
+  intros (_ & K) (A & B). split; [exact A|]. change SPILL_SPACE with 2048 in *.
   rewrite !K by lia. exact B.
 Qed.
 Lemma frame_eq_above s s' sp : sp_ok sp -> frame_eq s s' sp -> above_eq s s' sp -> True.
 Proof. auto. Qed.
 Lemma frame_eq_outer s s' sp : sp_ok sp -> frame_eq s s' sp -> outer_ok s sp -> outer_ok s' sp.
 Proof.
-  intros SP (_ & _ & _ & K) (A & B). split; [exact A|]. change SPILL_SPACE with 2048 in *.
+  intros SP (_ & _ & K) (A & B). split; [exact A|]. change SPILL_SPACE with 2048 in *.
   assert (G : forall a, sp + 2048 <= a -> kget s' a = kget s a).
   { intros a Ha. unfold kget. apply K. intros p P E.
     destruct (slot_addr_facts sp p SP P) as (_ & _ & _ & _ & NN).
@@ -129,15 +129,30 @@ End Epilogue.
 Lemma is_hash_app_ s : is_hash_label (s +++ "_") = true -> is_hash_label s = true.
 Proof. destruct s as [|c s]; cbn; auto. Qed.
 
-Lemma bind_rel c e st sp (c' : ctx) e' :
-  rel c e st sp -> NoDup (ids c') -> List.length c' = List.length c ->
-  bind (vars c') (map snd e) = Some e' -> rel c' e' st sp.
+Lemma vrep_kind CL s sp i b b' v : bchi b' = bchi b -> bty b' = bty b -> vrep CL s sp i b v -> vrep CL s sp i b' v.
 Proof.
-  intros R ND LEN BD. pose proof (rel_length _ _ _ _ R) as LE. destruct R as [F Al Ro Ids ND0 Vals]. split; auto.
+  intros K T V. destruct V as [b z t A B T0 L|b tn cls a t1 t2 A B T1 T2 L1 L2 C].
+  - eapply vrep_int; eauto; congruence.
+  - eapply vrep_clo; eauto; congruence.
+Qed.
+Lemma sig_match_nth : forall (a s : ctx) i x, sig_match a s = true -> nth_error a i = Some x ->
+  exists y, nth_error s i = Some y /\ bchi x = bchi y /\ bty x = bty y.
+Proof.
+  induction a as [|x0 a IH]; intros [|y0 s] i x H Hi; cbn [sig_match] in H; try discriminate; [destruct i; discriminate|].
+  apply andb_true_iff in H as [K H]. apply kt_eqb_eq in K. destruct i as [|i]; cbn [nth_error] in *.
+  - inversion Hi; subst. eauto.
+  - eauto.
+Qed.
+Lemma bind_rel CL c e st sp (c' : ctx) e' :
+  rel CL c e st sp -> NoDup (ids c') -> sig_match c c' = true ->
+  bind (vars c') (map snd e) = Some e' -> rel CL c' e' st sp.
+Proof.
+  intros R ND SM BD. pose proof (rel_length R) as LE. destruct R as [F Al Ro Fr Ids ND0 Vals]. split; auto.
   - unfold env_ids. rewrite <- (map_map fst idn), (bind_ids _ _ _ BD). unfold vars, ids. now rewrite map_map.
   - intros i x v Hi. destruct (bind_nth _ _ _ _ _ _ BD Hi) as (_ & Hv).
     rewrite nth_error_map in Hv. destruct (nth_error e i) as [[y w]|] eqn:He; [|discriminate]. cbn in Hv. inversion Hv; subst w.
-    exact (Vals i y v He).
+    destruct (Vals i y v He) as (b & Hb & V). destruct (sig_match_nth c c' i b SM Hb) as (b' & Hb' & K & T).
+    exists b'. split; [exact Hb'|]. apply (vrep_kind CL st sp i b b' v); [congruence|congruence|exact V].
 Qed.
 Lemma bind_length : forall (xs : list ident) (vs : list value) (e' : env), bind xs vs = Some e' -> List.length xs = List.length vs.
 Proof.
@@ -153,19 +168,24 @@ Proof.
   - rewrite E, N.eqb_refl. eauto.
   - destruct (N.eqb (idn y) x); eauto.
 Qed.
-Lemma has_ext_lookup_int c e st sp a : rel c e st sp -> has_ext c a = true -> exists x, lookup_int e a = Some x.
+Lemma has_ext_lookup_int CL c e st sp a : rel CL c e st sp -> has_ext c a = true -> exists x, lookup_int e a = Some x.
 Proof.
   intros R H. unfold has_ext, has in H. destruct (lookup_b c (idn a)) as [b|] eqn:L; [|discriminate].
-  apply lookup_b_Some in L as [Hin Hid].
+  apply lookup_b_Some in L as [Hin Hid]. apply andb_true_iff in H as [K T]. apply chi_eqb_eq in K. apply ty_eqb_eq in T.
   assert (I : In (idn a) (env_ids e)).
-  { rewrite (rel_ids _ _ _ _ R), <- Hid. now apply In_ids. }
-  destruct (lookup_of_in e _ I) as (v & Lv). destruct (lookup_nth e _ _ Lv) as (i & y & Hi & _).
-  destruct (rel_vals _ _ _ _ R i y v Hi) as (z & _ & -> & _). exists z. unfold lookup_int, lookup_id. now rewrite Lv.
+  { rewrite (rel_ids R), <- Hid. now apply In_ids. }
+  destruct (lookup_of_in e _ I) as (v & Lv). destruct (lookup_nth e _ _ Lv) as (i & y & Hi & Ey).
+  destruct (rel_vals R i y v Hi) as (b' & Hb' & V).
+  destruct (env_ctx_nth c e i y v (rel_ids R) Hi) as (b0 & Hb0 & Eb0). assert (b0 = b') by congruence. subst b0.
+  apply In_nth_error in Hin as (i' & Hi').
+  assert (i' = i) by (eapply (ids_nth_inj c i' i b b'); eauto using (rel_nodup R); congruence). subst i'.
+  assert (b' = b) by congruence. subst b'.
+  inversion V; subst; [|congruence]. exists z. unfold lookup_int, lookup_id. now rewrite Lv.
 Qed.
-Lemma has_lookup_id c e st sp a k t : rel c e st sp -> has c a k t = true -> exists v, lookup_id e a = Some v.
+Lemma has_lookup_id CL c e st sp a k t : rel CL c e st sp -> has c a k t = true -> exists v, lookup_id e a = Some v.
 Proof.
   intros R H. unfold has in H. destruct (lookup_b c (idn a)) as [b|] eqn:L; [|discriminate].
-  apply lookup_b_Some in L as [Hin Hid]. apply lookup_of_in. rewrite (rel_ids _ _ _ _ R), <- Hid. now apply In_ids.
+  apply lookup_b_Some in L as [Hin Hid]. apply lookup_of_in. rewrite (rel_ids R), <- Hid. now apply In_ids.
 Qed.
 Lemma lookups_total (e : env) : forall xs, (forall x, In x xs -> exists v, lookup_id e x = Some v) ->
   exists vs, lookups e xs = Some vs /\ List.length vs = List.length xs.
@@ -193,6 +213,8 @@ Section Main.
 Variable im : image.
 Variable p : prog.
 Variable sp : Z.
+Variable CL : Z -> ident -> list clause -> Prop.
+Local Notation rel := (rel CL).
 Hypothesis DEFS : forall d, In d (pdefs p) ->
   exists pcd lcd cd lcd', find_label (labels im) (show_ident (dname d) +++ "_") = Some pcd /\
     PM.find pcd (code im) = Some (LAB (show_ident (dname d) +++ "_")) /\
@@ -213,77 +235,76 @@ Lemma sim_exec : forall fuel s c e ot st pc code lc lc',
 Proof.
   induction fuel as [|fuel IH]; intros s c e ot st pc code lc lc' SI CI LC CS CA LA R OK OUT G.
   { exfalso. apply G. reflexivity. }
-  pose proof (rel_frame _ _ _ _ R) as F. pose proof (proj2 F) as SPOK.
+  pose proof (rel_frame R) as F. pose proof (proj2 F) as SPOK.
   destruct s as [re next|label args|v t tag args next|v t cls|v t env cls next|v tag t args|n v next|a op b v next|nl v next|so a b thenc elsec|v];
     cbn [stmt_int] in SI; try discriminate; cbn [exec_linear] in G |- *.
   - (* Substitute *)
     apply andb_true_iff in SI as [SI1 SI2].
     cbn [lin_check] in LC. apply andb_true_iff in LC as [_ LC]. apply andb_true_iff in LC as [LCs LC].
     destruct (lookups_total e (map snd re)) as (vs & LK & LV).
-    { intros x Hx. apply in_map_iff in Hx as (q & <- & Hq). rewrite forallb_forall in LCs. eapply has_lookup_id; eauto. }
+    { intros x Hx. apply in_map_iff in Hx as (q & <- & Hq). rewrite forallb_forall in LCs. eapply (has_lookup_id CL); eauto. }
     destruct (bind_total (map (fun r : binding * ident => bvar (fst r)) re) vs) as (e' & BD); [rewrite LV, !map_length; reflexivity|].
     rewrite LK, BD in G |- *.
     destruct (cs_substitute _ _ _ _ _ _ _ CS) as (c1 & lc1 & c2 & c3 & WC & CE & NX & ->).
     assert (NDn : NoDup (new_ids re)) by (rewrite <- ids_new; exact (lin_nodup _ _ _ LC)).
-    destruct (sim_substitute im c e st sp re vs e' c1 lc lc1 c2 R CI NDn LK BD WC CE) as (-> & -> & s' & E & R' & FE).
-    cbn [app] in CA, LA. apply code_at_app in CA as [CA2 CA3]. apply labels_at_nh_app in LA as [_ LA3].
-    eapply exec_to_finishes; [apply (exec_straight_exec_to im c2 pc st s' CA2 E)|].
+    rewrite app_assoc in CA, LA. apply code_at_app in CA as [CA2 CA3]. apply labels_at_nh_app in LA as [LA2 LA3].
+    destruct (sim_substitute im CL c e st sp re vs e' c1 lc lc1 c2 pc R NDn) as (s' & X & R' & FE); auto.
+    { intros q Hq. rewrite forallb_forall in LCs. exact (LCs q Hq). }
+    eapply exec_to_finishes; [exact X|].
     eapply (IH next (map fst re) e' ot s'); eauto.
     + unfold ctx_int. rewrite forallb_forall in *. intros b Hb. apply in_map_iff in Hb as (q & <- & Hq). auto.
     + eapply frame_eq_outer; eauto.
-    + destruct FE as (_ & _ & O & _). congruence.
+    + destruct FE as (_ & O & _). congruence.
   - (* Call *)
     cbn [lin_check] in LC. apply andb_true_iff in LC as [_ LC].
     destruct (lookup_label (sigs_of p) label) as [ps|] eqn:LL; [|discriminate].
     destruct (lookup_label_find_def p label ps LL) as (d & FD & <-).
     destruct (bind_total (vars (dctx d)) (map snd e)) as (e' & BD).
-    { apply sig_match_iff, same_kt_length in LC. unfold vars. rewrite !map_length, (rel_length _ _ _ _ R). auto. }
+    { apply sig_match_iff, same_kt_length in LC. unfold vars. rewrite !map_length, (rel_length R). auto. }
     rewrite FD, BD in G |- *.
     unfold find_def in FD. apply find_some in FD as [IN EQ]. apply ident_eqb_eq in EQ. subst label.
     destruct (cs_call _ _ _ _ _ _ _ CS) as (-> & _).
-    destruct (DEFS d IN) as (pcd & lcd & cd & lcd' & FL & CL & CSd & CAd & LAd).
+    destruct (DEFS d IN) as (pcd & lcd & cd & lcd' & FL & CLb & CSd & CAd & LAd).
     apply code_at_cons in CA as [CJ _].
     eapply exec_to_finishes.
     { eapply exec_jump; [exact CJ|cbn [step]; unfold goto_label; rewrite FL; reflexivity|].
-      eapply exec_next; [exact CL|reflexivity|apply exec_refl]. }
+      eapply exec_next; [exact CLb|reflexivity|apply exec_refl]. }
     specialize (INT d IN). unfold def_int in INT. apply andb_true_iff in INT as [I1 I2].
     eapply (IH (dbody d) (dctx d) e' ot st); eauto.
-    eapply bind_rel; eauto.
-    + exact (lin_nodup _ _ _ (LIN d IN)).
-    + apply bind_length in BD. unfold vars in BD. rewrite !map_length in BD. rewrite BD. apply (rel_length _ _ _ _ R).
+    eapply bind_rel; eauto. exact (lin_nodup _ _ _ (LIN d IN)).
   - (* Literal *)
     cbn [lin_check] in LC. apply andb_true_iff in LC as [_ LC].
     destruct (cs_literal _ _ _ _ _ _ _ _ CS) as (tv & c2 & TV & NX & ->).
-    destruct (sim_literal im c e st sp n v tv R (lin_nodup _ _ _ LC) TV) as (s' & E & R' & FE).
+    destruct (sim_literal im CL c e st sp n v tv R (lin_nodup _ _ _ LC) TV) as (s' & E & R' & FE).
     apply code_at_app in CA as [CA1 CA2]. apply labels_at_nh_app in LA as [_ LA2].
     eapply exec_to_finishes; [apply (exec_straight_exec_to im _ pc st s' CA1 E)|].
     eapply (IH next (c ++ [mkb v Ext I64]) _ ot s'); eauto.
     + unfold ctx_int in *. rewrite forallb_app, CI. reflexivity.
     + eapply frame_eq_outer; eauto.
-    + destruct FE as (_ & _ & O & _). congruence.
+    + destruct FE as (_ & O & _). congruence.
   - (* Op *)
     cbn [lin_check] in LC. apply andb_true_iff in LC as [_ LC]. apply andb_true_iff in LC as [LCo LC].
     apply andb_true_iff in LCo as [HA HB].
-    destruct (has_ext_lookup_int c e st sp a R HA) as (x & LA1).
-    destruct (has_ext_lookup_int c e st sp b R HB) as (y & LB1).
+    destruct (has_ext_lookup_int CL c e st sp a R HA) as (x & LA1).
+    destruct (has_ext_lookup_int CL c e st sp b R HB) as (y & LB1).
     rewrite LA1, LB1 in G |- *.
     destruct (cs_op _ _ _ _ _ _ _ _ _ _ CS) as (tv & ta & tb & c2 & TV & TA & TB & NX & ->).
     apply code_at_app in CA as [CA1 CA2]. apply labels_at_nh_app in LA as [_ LA2].
     destruct (eval_op op x y) as [z|w] eqn:EV.
-    + destruct (sim_op im c e st sp a op b v x y z tv ta tb R (lin_nodup _ _ _ LC) LA1 LB1 EV TV TA TB) as (s' & E & R' & FE).
+    + destruct (sim_op im CL c e st sp a op b v x y z tv ta tb R (lin_nodup _ _ _ LC) LA1 LB1 EV TV TA TB) as (s' & E & R' & FE).
       eapply exec_to_finishes; [apply (exec_straight_exec_to im _ pc st s' CA1 E)|].
       eapply (IH next (c ++ [mkb v Ext I64]) _ ot s'); eauto.
       * unfold ctx_int in *. rewrite forallb_app, CI. reflexivity.
       * eapply frame_eq_outer; eauto.
-      * destruct FE as (_ & _ & O & _). congruence.
-    + destruct (sim_op_undef im c e st sp a op b v x y w tv ta tb R (lin_nodup _ _ _ LC) LA1 LB1 EV TV TA TB) as (s' & E & O).
+      * destruct FE as (_ & O & _). congruence.
+    + destruct (sim_op_undef im CL c e st sp a op b v x y w tv ta tb R (lin_nodup _ _ _ LC) LA1 LB1 EV TV TA TB) as (s' & E & O).
       rewrite <- OUT, <- O. eapply exec_undef_finishes; eauto.
   - (* PrintI64 *)
     cbn [lin_check] in LC. apply andb_true_iff in LC as [_ LC]. apply andb_true_iff in LC as [HV LC].
-    destruct (has_ext_lookup_int c e st sp v R HV) as (z & LV).
+    destruct (has_ext_lookup_int CL c e st sp v R HV) as (z & LV).
     rewrite LV in G |- *.
     destruct (cs_print _ _ _ _ _ _ _ _ CS) as (tv & c2 & TV & NX & ->).
-    destruct (sim_print im c e st sp nl v z tv R CI LV TV) as (s' & E & R' & O & AE).
+    destruct (sim_print im CL c e st sp nl v z tv R LV TV) as (s' & E & R' & O & AE).
     apply code_at_app in CA as [CA1 CA2]. apply labels_at_nh_app in LA as [_ LA2].
     eapply exec_to_finishes; [apply (exec_straight_exec_to im _ pc st s' CA1 E)|].
     eapply (IH next c e ((nl, z) :: ot) s'); eauto.
@@ -293,14 +314,14 @@ Proof.
     apply andb_true_iff in SI as [SI1 SI2].
     cbn [lin_check] in LC. apply andb_true_iff in LC as [_ LC].
     apply andb_true_iff in LC as [LC LCe]. apply andb_true_iff in LC as [LCo LCt]. apply andb_true_iff in LCo as [HA HB].
-    destruct (has_ext_lookup_int c e st sp a R HA) as (x & LA1).
+    destruct (has_ext_lookup_int CL c e st sp a R HA) as (x & LA1).
     assert (LB1 : exists y, match b with Some b0 => lookup_int e b0 | None => Some 0 end = Some y).
-    { destruct b as [b|]; [|eauto]. exact (has_ext_lookup_int c e st sp b R HB). }
+    { destruct b as [b|]; [|eauto]. exact (has_ext_lookup_int CL c e st sp b R HB). }
     destruct LB1 as (y & LB1). rewrite LA1, LB1 in G |- *.
-    destruct (sim_ifc im c e st sp so a b x y (ptypes p) thenc elsec lc code lc' pc R LA1 LB1 CS CA LA)
+    destruct (sim_ifc im CL c e st sp so a b x y (ptypes p) thenc elsec lc code lc' pc R LA1 LB1 CS CA LA)
       as (c1 & c2 & lc2 & c3 & s' & -> & EL & TH & X & R' & FE).
     assert (OK' : outer_ok s' sp) by (eapply frame_eq_outer; eauto).
-    assert (O' : out s' = ot) by (destruct FE as (_ & _ & O & _); congruence).
+    assert (O' : out s' = ot) by (destruct FE as (_ & O & _); congruence).
     eapply exec_to_finishes; [exact X|].
     apply code_at_app in CA as [_ CA]. apply code_at_app in CA as [CA2 CA]. apply code_at_app in CA as [_ CA3].
     apply labels_at_nh_app in LA as [_ LA]. apply labels_at_nh_app in LA as [LA2 LA]. apply labels_at_nh_app in LA as [_ LA3].
@@ -310,16 +331,16 @@ Proof.
     + eapply (IH elsec c e ot s'); eauto.
   - (* Exit *)
     cbn [lin_check] in LC. apply andb_true_iff in LC as [_ HV].
-    destruct (has_ext_lookup_int c e st sp v R HV) as (z & LV).
+    destruct (has_ext_lookup_int CL c e st sp v R HV) as (z & LV).
     rewrite LV in G |- *.
     destruct (cs_exit _ _ _ _ _ _ CS) as (tv & TV & -> & _).
-    destruct (sim_exit_mov im c e st sp v z tv R LV TV) as (s' & E & RAX & F' & FE).
+    destruct (sim_exit_mov im CL c e st sp v z tv R LV TV) as (s' & E & RAX & F' & FE).
     apply code_at_app in CA as [CA1 CA2]. apply code_at_cons in CA2 as [CJ _].
     destruct CLEAN as (pcc & FL & CAc).
     eapply exec_to_finishes; [apply (exec_straight_exec_to im _ pc st s' CA1 E)|].
     eapply exec_to_finishes.
     { eapply exec_jump; [exact CJ|cbn [step]; unfold goto_label; rewrite FL; reflexivity|apply exec_refl]. }
-    replace ot with (out s') by (destruct FE as (_ & _ & O & _); congruence).
+    replace ot with (out s') by (destruct FE as (_ & O & _); congruence).
     eapply epilogue_ok; eauto. eapply frame_eq_outer; eauto.
 Qed.
 End Main.
